@@ -479,7 +479,7 @@ pub fn run(run: &Run) {
     run.set_rule("history", "history of upsert/delete/batch(may fail)/checkpoint/clean-reopen/crash-reopen (continue from any recorded image, so crash-recover cycles nest) over 6 keys, rotation threshold 4..16 via hook (or 1000 natural), 4 flush policies; every crash image is reopened and compared with the states S_acked..S_issued of the reference model; non-trivial = an image taken inside an operation, or a rotation/checkpoint happened; evaluations = histories, counters report images");
     let sh = shards_for(run.tier);
     run.max_shrink.store(300, std::sync::atomic::Ordering::Relaxed);
-    run.prop("history", run.tier.pick(80, 1500), sh, case(run.tier.pick(30, 120)), run_case);
+    run.prop("history", run.tier.pick(80, 3000), sh, case(run.tier.pick(30, 120)), run_case);
     if run.tier == Tier::Thorough {
         // natural rotation at 1000 entries
         let long = prop::collection::vec(prop_oneof![12 => (0u8..6, any::<u8>()).prop_map(|(k, s)| Op::Upsert(k, s)), 2 => (0u8..6).prop_map(Op::Delete), 1 => Just(Op::Checkpoint)], 2100..2600).prop_map(|mut ops| {
